@@ -338,7 +338,12 @@ def isnan(x):
     if _is_sym(x):
         if _np.ndim(x) == 0:
             return False
-        return _np.zeros(_np.shape(x), dtype=bool)
+        # entries that are concrete float NaN (a NaN row written into a symbolic array) are NaN; symbols are not
+        a = _np.asarray(x, dtype=object)
+        out = _np.zeros(a.shape, dtype=bool)
+        for idx in _np.ndindex(a.shape):
+            out[idx] = _s._isnan(a[idx])
+        return out
     return _np.isnan(x)
 
 
